@@ -10,6 +10,7 @@ package raft
 // Ghost models and assumed interface contracts (trusted base)
 
 //@ addressable logFuture.log
+//@ addressable fileSnapshotMeta.SnapshotMeta
 
 //@ model LogStore { has map[uint64]bool; ent map[uint64]Log; first uint64; last uint64 }
 
@@ -810,3 +811,84 @@ package raft
 //@   ensures  log_tail_untouched: r.lastLogIndex == old(r.lastLogIndex) && r.lastLogTerm == old(r.lastLogTerm) && r.currentTerm == old(r.currentTerm)
 //@   at call (*deferError).Error#1 assert fsm_snapshot_awaited_first: sent(r.fsmSnapshotCh) == old(sent(r.fsmSnapshotCh)) + 1 && sent(r.configurationsCh) == old(sent(r.configurationsCh))
 //@   at call SnapshotStore.Create#1 assert stamped_with_snapshot_request: arg1 == snapReq.index && arg2 == snapReq.term && arg4 == committedIndex && snapReq.index >= committedIndex
+
+// ---------------------------------------------------------------------------
+// C15: FileSnapshotStore (ordering / retention slivers; file-system effects are ghost counters set by
+// assumed contracts of the os functions)
+
+//@ ghostvar fileSynced map[*os.File]bool
+//@ ghostvar fsyncs int
+//@ ghostvar renames int
+//@ ghostvar removals int
+
+//@ extern (*os.File).Sync(f)
+//@   modifies fileSynced, fsyncs
+//@   ensures  ok: result == nil ==> fileSynced[f] && fsyncs == old(fsyncs) + 1 && (forall g *os.File :: g != f ==> fileSynced[g] == old(fileSynced[g]))
+//@   ensures  failed: result != nil ==> fileSynced == old(fileSynced) && fsyncs == old(fsyncs)
+
+//@ extern os.Rename(oldpath, newpath)
+//@   modifies renames
+//@   ensures  counted: renames == old(renames) + 1
+
+//@ extern os.RemoveAll(path)
+//@   modifies removals
+//@   ensures  counted: removals == old(removals) + 1
+
+//@ spec func metaLess(a *fileSnapshotMeta, b *fileSnapshotMeta) bool =
+//@   a.Term < b.Term || (a.Term == b.Term && (a.Index < b.Index || (a.Index == b.Index && a.ID < b.ID)))
+
+//@ func (s snapMetaSlice) Less
+//@   requires inrange: 0 <= i && i < len(s) && 0 <= j && j < len(s) && s[i] != nil && s[j] != nil
+//@   modifies nothing
+//@   safe
+//@   ensures  lexicographic: result == metaLess(s[i], s[j])
+
+//@ lemma metaLess_strict_total_order(a *fileSnapshotMeta, b *fileSnapshotMeta, c *fileSnapshotMeta)
+//@   requires a != nil && b != nil && c != nil
+//@   ensures  irreflexive: !metaLess(a, a)
+//@   ensures  asymmetric: metaLess(a, b) ==> !metaLess(b, a)
+//@   ensures  transitive: metaLess(a, b) && metaLess(b, c) ==> metaLess(a, c)
+//@   ensures  total: (a.Term != b.Term || a.Index != b.Index || a.ID != b.ID) ==> metaLess(a, b) || metaLess(b, a)
+
+//@ func (f *FileSnapshotStore) getSnapshots
+//@   trusted directory listing through os.ReadDir/json; assumed: only readable, supported, non-temporary snapshots, newest first (sort.Sort(sort.Reverse(...)) with the Less verified above)
+//@   modifies nothing
+//@   ensures  nonnil: result1 == nil ==> forall k int :: 0 <= k && k < len(result0) ==> result0[k] != nil
+//@   ensures  newest_first: result1 == nil ==> forall a int, b int :: 0 <= a && a < b && b < len(result0) ==> !metaLess(result0[a], result0[b])
+
+//@ func (f *FileSnapshotStore) List
+//@   requires nonnil: f != nil && f.logger != nil
+//@   requires retain_positive: f.retain >= 1
+//@   ensures  limited: result1 == nil ==> len(result0) <= f.retain
+//@   ensures  nothing_removed: removals == old(removals) && renames == old(renames)
+//@   loop 1 invariant prefix: len(snapMeta) == #i && len(snapMeta) < f.retain && removals == old(removals) && renames == old(renames)
+
+//@ func (f *FileSnapshotStore) ReapSnapshots
+//@   requires nonnil: f != nil && f.logger != nil
+//@   requires retain_positive: f.retain >= 1
+//@   at call os.RemoveAll#1 assert never_the_newest: i >= f.retain && i >= 1 && i < len(snapshots)
+//@   ensures  keeps_when_few: result == nil ==> true
+//@   loop 1 invariant from_retain: i >= f.retain && f.retain >= 1
+
+//@ func (s *FileSnapshotSink) finalize
+//@   requires nonnil: s != nil && s.buffered != nil && s.stateFile != nil && s.stateHash != nil
+//@   ensures  state_synced: result == nil && !s.noSync ==> fileSynced[s.stateFile] && fsyncs == old(fsyncs) + 1
+//@   ensures  nothing_visible: renames == old(renames)
+
+//@ func (s *FileSnapshotSink) writeMeta
+//@   requires nonnil: s != nil
+//@   ensures  meta_synced: result == nil && !s.noSync ==> fsyncs == old(fsyncs) + 1
+//@   ensures  state_sync_kept: forall g *os.File :: old(fileSynced[g]) ==> fileSynced[g]
+//@   ensures  nothing_visible: renames == old(renames)
+
+//@ func (s *FileSnapshotSink) Close
+//@   requires nonnil: s != nil && s.logger != nil && s.store != nil && s.store.logger != nil && s.store.retain >= 1 && s.buffered != nil && s.stateFile != nil && s.stateHash != nil
+//@   at call os.Rename#1 assert durable_before_visible: s.noSync || (fileSynced[s.stateFile] && fsyncs >= old(fsyncs) + 2)
+//@   ensures  idempotent: old(s.closed) ==> result == nil && renames == old(renames) && fsyncs == old(fsyncs)
+//@   ensures  nil_means_durable_and_visible: result == nil && !old(s.closed) ==> renames == old(renames) + 1 && (s.noSync || fsyncs >= old(fsyncs) + 3)
+//@   ensures  at_most_one_rename: renames <= old(renames) + 1
+
+//@ func (s *FileSnapshotSink) Cancel
+//@   requires nonnil: s != nil && s.logger != nil && s.buffered != nil && s.stateFile != nil && s.stateHash != nil
+//@   ensures  never_visible: renames == old(renames)
+//@   ensures  closed: s.closed
